@@ -69,13 +69,19 @@ fn string_mask(y: &str) -> Option<Vec<bool>> {
 }
 
 fn judge(x: &str) -> Judged {
+    judge_with(x, None)
+}
+
+/// `fcfg`: formatter configuration for both passes (None = default). `check_formatted` / `format_diff` have no
+/// configuration parameter, so those two legs are only judged under the default configuration.
+fn judge_with(x: &str, fcfg: Option<&incan::FormatConfig>) -> Judged {
     let a1 = match util::catch(|| gsyn::parse(x)) {
         Ok(Ok(p)) => p,
         Ok(Err(e)) => return Judged::Discard(e),
         Err(p) => return Judged::Discard(format!("front end panicked: {p}")),
     };
     let tags = gsyn::ast_tags(&a1);
-    let y = match util::catch(|| incan::format_source(x)) {
+    let y = match util::catch(|| fmtoracle::format_with(x, fcfg)) {
         Ok(Ok(y)) => y,
         Ok(Err(_)) => return Judged::Blocked("format_source error".into()),
         Err(_) => return Judged::Blocked("format_source panic".into()),
@@ -85,7 +91,7 @@ fn judge(x: &str) -> Judged {
     }
     let mut fails = Vec::new();
     // 1. idempotence
-    match util::catch(|| incan::format_source(&y)) {
+    match util::catch(|| fmtoracle::format_with(&y, fcfg)) {
         Ok(Ok(z)) => {
             if z != y {
                 let (ly, lz): (Vec<&str>, Vec<&str>) = (y.split('\n').collect(), z.split('\n').collect());
@@ -106,10 +112,12 @@ fn judge(x: &str) -> Judged {
     }
     // 2./3. check and diff agree
     match util::catch(|| incan::check_formatted(&y)) {
+        _ if fcfg.is_some() => {}
         Ok(Ok(true)) => {}
         other => fails.push(Fail { key: "check-disagrees".into(), what: format!("check_formatted(fmt(x)) = {:?}", other.map(|r| r.map_err(|e| e.to_string()))) }),
     }
     match util::catch(|| incan::format_diff(&y)) {
+        _ if fcfg.is_some() => {}
         Ok(Ok(None)) => {}
         other => {
             fails.push(Fail { key: "diff-disagrees".into(), what: format!("format_diff(fmt(x)) = {:?}", other.map(|r| r.map(|d| d.map(|s| util::truncate(&s, 200))).map_err(|e| e.to_string()))) })
@@ -165,8 +173,8 @@ struct Found {
     key: String,
     source: String,
     what: String,
-    /// (chunk seed, case index) of a generated case: shrunk lazily when the signature is reported
-    gen: Option<(u64, usize)>,
+    /// (generator class, chunk seed, case index) of a generated case: shrunk lazily when the signature is reported
+    gen: Option<(u8, u64, usize)>,
 }
 
 #[derive(Default)]
@@ -182,11 +190,35 @@ struct ChunkOut {
     samples: Vec<(String, String)>,
     /// (source, formatted) candidates for the CLI leg
     cli: Vec<(String, String)>,
+    deeper_32: u64,
+    max_indent: usize,
+    nondefault_config: u64,
 }
 
-fn run_chunk(idx: usize, n: usize, seed: u64, cfg: &gsyn::GsynConfig, known: &Known) -> ChunkOut {
+const CLASS_NAMES: [&str; 4] = ["gsyn_programs", "stress_deep_nesting", "stress_long_constructs", "stress_many_declarations"];
+
+fn class_strategy(class: u8, cfg: &gsyn::GsynConfig) -> proptest::strategy::BoxedStrategy<gsyn::GProgram> {
+    match class {
+        1 => gsyn::stress::deep(cfg),
+        2 => gsyn::stress::long(cfg),
+        3 => gsyn::stress::many(cfg),
+        _ => gsyn::program_tree(cfg),
+    }
+}
+
+fn case_config(class: u8, k: usize) -> Option<incan::FormatConfig> {
+    if class != 0 {
+        fmtoracle::config(k)
+    } else if k % 8 == 7 {
+        fmtoracle::config(1 + (k / 8) % 5)
+    } else {
+        None
+    }
+}
+
+fn run_chunk(class: u8, idx: usize, n: usize, seed: u64, cfg: &gsyn::GsynConfig, known: &Known) -> ChunkOut {
     let mut out = ChunkOut::default();
-    let strat = gsyn::program_tree(cfg);
+    let strat = class_strategy(class, cfg);
     let mut runner = vcore::gen::runner(seed);
     let trees = vcore::gen::batch(&strat, &mut runner, n);
     let mut seen: BTreeSet<String> = BTreeSet::new();
@@ -197,7 +229,8 @@ fn run_chunk(idx: usize, n: usize, seed: u64, cfg: &gsyn::GsynConfig, known: &Kn
             out.noise += 1;
             continue;
         }
-        match judge(&p.source) {
+        let fcfg = case_config(class, k);
+        match judge_with(&p.source, fcfg.as_ref()) {
             Judged::Discard(_) => out.noise += 1,
             Judged::Blocked(why) => *out.blocked.entry(why).or_insert(0) += 1,
             Judged::Done { fails, tags, formatted } => {
@@ -214,10 +247,18 @@ fn run_chunk(idx: usize, n: usize, seed: u64, cfg: &gsyn::GsynConfig, known: &Kn
                         *out.classes.entry(t).or_insert(0) += 1;
                     }
                 }
-                if idx < 3 && k % 50 == 3 && out.samples.len() < 2 {
+                let indent = gsyn::max_indent_columns(&formatted);
+                out.max_indent = out.max_indent.max(indent);
+                if indent > 32 {
+                    out.deeper_32 += 1;
+                }
+                if fcfg.is_some() {
+                    out.nondefault_config += 1;
+                }
+                if idx < 3 && class == 0 && k % 50 == 3 && out.samples.len() < 2 {
                     out.samples.push((p.source.clone(), formatted.clone()));
                 }
-                if idx < 40 && out.cli.len() < 1 && k % 17 == 5 && formatted != p.source && p.source.len() < 4000 {
+                if ((class == 0 && idx < 40) || (class == 1 && idx < 3)) && fcfg.is_none() && out.cli.is_empty() && k % 17 == 5 && formatted != p.source && p.source.len() < 6000 {
                     out.cli.push((p.source.clone(), formatted.clone()));
                 }
                 for f in fails {
@@ -228,7 +269,7 @@ fn run_chunk(idx: usize, n: usize, seed: u64, cfg: &gsyn::GsynConfig, known: &Kn
                     out.violations += 1;
                     if seen.insert(f.key.clone()) {
                         let what = format!("{}\n--- input ---\n{}\n--- formatted ---\n{}", f.what, util::truncate(&p.source, 1200), util::truncate(&formatted, 1200));
-                        out.found.push(Found { key: f.key.clone(), source: p.source.clone(), what, gen: Some((seed, k)) });
+                        out.found.push(Found { key: f.key.clone(), source: p.source.clone(), what, gen: Some((class, seed, k)) });
                     }
                 }
             }
@@ -237,20 +278,21 @@ fn run_chunk(idx: usize, n: usize, seed: u64, cfg: &gsyn::GsynConfig, known: &Kn
     out
 }
 
-fn shrink_generated(seed: u64, k: usize, key: &str, cfg: &gsyn::GsynConfig, known: &Known) -> Option<(String, String)> {
-    let strat = gsyn::program_tree(cfg);
+fn shrink_generated(class: u8, seed: u64, k: usize, key: &str, cfg: &gsyn::GsynConfig, known: &Known) -> Option<(String, String)> {
+    let strat = class_strategy(class, cfg);
+    let fcfg = case_config(class, k);
     let mut runner = vcore::gen::runner(seed);
     let mut trees = vcore::gen::batch(&strat, &mut runner, k + 1);
     let tree = trees.last_mut()?;
     let small = vcore::gen::shrink(tree, 600, |t| {
         let q = gsyn::render(t);
-        q.parsed && matches!(judge(&q.source), Judged::Done { ref fails, ref tags, .. } if fails.iter().any(|g| g.key == key && known_key(g, tags, known).is_none()))
+        q.parsed && matches!(judge_with(&q.source, fcfg.as_ref()), Judged::Done { ref fails, ref tags, .. } if fails.iter().any(|g| g.key == key && known_key(g, tags, known).is_none()))
     });
     let q = gsyn::render(&small);
-    match judge(&q.source) {
+    match judge_with(&q.source, fcfg.as_ref()) {
         Judged::Done { fails, formatted, .. } => {
             let f = fails.into_iter().find(|g| g.key == key)?;
-            Some((q.source.clone(), format!("{}\n--- input (shrunk) ---\n{}\n--- formatted ---\n{}", f.what, util::truncate(&q.source, 1200), util::truncate(&formatted, 1200))))
+            Some((q.source.clone(), format!("{}\nformat config: {fcfg:?} (None = default; --replay tries all of fmtoracle::config)\n--- input (shrunk) ---\n{}\n--- formatted ---\n{}", f.what, util::truncate(&q.source, 1200), util::truncate(&formatted, 1200))))
         }
         _ => None,
     }
@@ -261,8 +303,8 @@ fn report(out: &mut Outcome, ev: &mut Evidence, f: &Found, shrink: Option<(&gsyn
         ev.violations += 1;
         return;
     }
-    if let (Some((seed, k)), Some((cfg, known))) = (f.gen, shrink) {
-        if let Some((source, what)) = shrink_generated(seed, k, &f.key, cfg, known) {
+    if let (Some((class, seed, k)), Some((cfg, known))) = (f.gen, shrink) {
+        if let Some((source, what)) = shrink_generated(class, seed, k, &f.key, cfg, known) {
             out.violation(ev, &f.key, "incn", &source, &what);
             return;
         }
@@ -271,6 +313,22 @@ fn report(out: &mut Outcome, ev: &mut Evidence, f: &Found, shrink: Option<(&gsyn
 }
 
 fn judge_text_and_report(name: &str, text: &str, known: &Known, out: &mut Outcome, ev: &mut Evidence) -> &'static str {
+    // non-default formatter configurations first (their failures are reported, the default run decides the class)
+    // (doc snippets are judged under the default configuration only: fixed work budget)
+    let n_cfg = if name.contains("#") && name.contains(".md") { 1 } else { 6 };
+    for i in 1..n_cfg {
+        let c = fmtoracle::config(i);
+        if let Judged::Done { fails, tags, formatted } = judge_with(text, c.as_ref()) {
+            for f in fails {
+                if let Some(k) = known_key(&f, &tags, known) {
+                    ev.exclude(k);
+                    continue;
+                }
+                let what = format!("origin: {name} under format config {c:?}\n{}\n--- input ---\n{}\n--- formatted ---\n{}", f.what, util::truncate(text, 1200), util::truncate(&formatted, 1200));
+                report(out, ev, &Found { key: f.key, source: text.to_string(), what, gen: None }, None);
+            }
+        }
+    }
     match judge(text) {
         Judged::Discard(_) => {
             ev.discard("input does not parse");
@@ -471,13 +529,30 @@ fn main() {
     let n_gen = args.flag("gen").and_then(|s| s.parse().ok()).unwrap_or(args.tier.pick(30_000usize, 600_000usize));
     let chunk = 250usize;
     let n_chunks = n_gen.div_ceil(chunk);
-    let seeds: Vec<u64> = (0..n_chunks).map(|i| args.subseed(2000 + i as u64)).collect();
-    let results: Vec<ChunkOut> = seeds.par_iter().enumerate().map(|(i, s)| run_chunk(i, chunk, *s, &cfg, &known)).collect();
+    let scale = args.tier.pick(1usize, 20usize);
+    let mut plan: Vec<(u8, usize, usize, u64)> = (0..n_chunks).map(|i| (0u8, i, chunk, args.subseed(2000 + i as u64))).collect();
+    if args.flag("no-stress").is_none() {
+        for i in 0..5 * scale {
+            plan.push((1, i, 200, args.subseed(510_000 + i as u64)));
+        }
+        for i in 0..3 * scale {
+            plan.push((2, i, 200, args.subseed(610_000 + i as u64)));
+        }
+        for i in 0..2 * scale {
+            plan.push((3, i, 30, args.subseed(710_000 + i as u64)));
+        }
+    }
+    let results: Vec<ChunkOut> = plan.par_iter().map(|(class, i, n, s)| run_chunk(*class, *i, *n, *s, &cfg, &known)).collect();
+    let (mut deeper_32, mut max_indent, mut nondefault) = (0u64, 0usize, 0u64);
     let mut blocked: BTreeMap<String, u64> = BTreeMap::new();
     let mut cli_files: Vec<(String, String)> = Vec::new();
     let n_cli = args.tier.pick(12usize, 300usize);
     let (mut generated, mut noise) = (0u64, 0u64);
-    for r in &results {
+    for (r, (class, ..)) in results.iter().zip(plan.iter()) {
+        ev.class_n(CLASS_NAMES[*class as usize], r.cases);
+        deeper_32 += r.deeper_32;
+        max_indent = max_indent.max(r.max_indent);
+        nondefault += r.nondefault_config;
         generated += r.cases;
         noise += r.noise;
         ev.cases(r.cases - r.noise);
@@ -506,7 +581,10 @@ fn main() {
             report(&mut out, &mut ev, f, Some((&cfg, &known)));
         }
     }
-    ev.class_n("gsyn_programs", generated);
+    ev.set(
+        "size_and_depth",
+        json!({"formatted_indent_deeper_than_32_columns": deeper_32, "deepest_formatted_indent_columns": max_indent, "cases_with_non_default_format_config": nondefault}),
+    );
     for _ in 0..noise {
         ev.discard("generator noise: text does not parse");
     }
